@@ -27,7 +27,8 @@ STATE_MEASURE = "distinct (function, collision class of the argument pair, cache
 PROBES = ["same_bytes_other_dtype", "same_bytes_other_length", "strided_argument", "keyword_vs_positional", "cache_full_eviction",
           "evicted_then_recalled", "result_mutated", "result_readonly", "file_modified_same_size", "file_modified_other_size",
           "contour_evicted_recomputed", "child_scalar_read", "basin_proxy_read", "h5_scalar_read", "interleaved_functions", "layout_or_shape_variant_2d", "first_access_with_dtype",
-          "refilter_same_count", "grandchild_read_after_refilter", "tuple_argument"]
+          "refilter_same_count", "grandchild_read_after_refilter", "tuple_argument",
+          "contour_of_invalid_mask_requested", "file_replaced_keeping_mtime"]
 COMPONENTS = {"real": ["dclab.cached.Cache", "dclab.kde_methods (kde_histogram, kde_gauss, kde_multivariate)", "dclab.downsampling.downsample_grid (compiled)",
                        "dclab.util.hashfile / file_monitoring_lru_cache", "dclab.features.contour.LazyContourList",
                        "H5ScalarEvent / ChildScalar / BasinProxyFeature caches", "real files and os.stat on tmpfs"],
@@ -48,7 +49,7 @@ def plan(tier):
 def make_trace(seed, tier):
     r = seeds.rng(seed, "plan")
     return {"knobs": {"max_size": r.choice([2, 3, 5, 8, 100]), "max_events": r.choice([1, 2, 3, 5]), "n": r.choice([8, 20, 40]),
-                      "world": r.choice(["memo", "memo", "memo", "files", "dataset", "mixed"])},
+                      "world": r.choice(["memo", "memo", "memo", "files", "dataset", "mixed"]), "bad_mask": r.random() < 0.35},
             "max_ops": r.choice([12, 40, 80, 120]), "ops": None}
 
 
@@ -126,6 +127,9 @@ class World:
         # lazy contours
         from dclab.features.contour import LazyContourList
         self.masks = np.array([gen.blob_mask(rs, 12, 16) for _ in range(8)])
+        if k.get("bad_mask"):
+            # one event without any mask pixel: its contour computation raises, for the cached list as for a fresh call
+            self.masks[5] = False
         self.lcl = LazyContourList(self.masks, max_events=k["max_events"])
         self.lcl_seen = []
         # datasets
@@ -202,7 +206,7 @@ class World:
         if kind == "hf_call":
             return {"k": "hf_call", "f": r.randrange(3), "blocksize": r.choice([65536, 64, 1000]), "count": r.choice([0, 0, 1, 3])}
         if kind == "hf_modify":
-            return {"k": "hf_modify", "f": r.randrange(3), "how": r.choice(["same_size", "same_size", "grow", "shrink"]), "dseed": r.randrange(1 << 20)}
+            return {"k": "hf_modify", "f": r.randrange(3), "how": r.choice(["same_size", "same_size", "grow", "shrink", "grow_keep_mtime", "shrink_keep_mtime"]), "dseed": r.randrange(1 << 20)}
         if w in ("dataset", "mixed") and self.ds_objs is not None and r.random() < 0.2:
             # the root selects other events (equally many / any); the hierarchy is refreshed from the youngest
             return {"k": "ds_refilter", "mode": r.choice(["swap", "swap", "random"]), "dseed": r.randrange(1 << 20)}
@@ -358,13 +362,30 @@ class World:
         from dclab.features.contour import get_contour
         ctx = self.ctx
         i = op["i"]
+        try:
+            if isinstance(i, list):
+                exp = [get_contour(self.masks[j]) for j in range(*slice(*i).indices(len(self.masks)))]
+            else:
+                exp = [get_contour(self.masks[i])]
+            exp_exc = None
+        except Exception as e:
+            exp, exp_exc = None, type(e)
+        if exp_exc is not None:
+            # the fresh computation refuses this event: the list must refuse it as well (and stay usable afterwards)
+            ctx.checked()
+            ctx.probe("contour_of_invalid_mask_requested")
+            try:
+                self.lcl[slice(*i)] if isinstance(i, list) else self.lcl[i]
+                ctx.violation("C17.contour", f"LazyContourList[{i}] returns a contour although a fresh computation raises {exp_exc.__name__}", sig={"what": "invalid"})
+            except Exception:
+                pass
+            ctx.log("c", f"lc {i}", "refused")
+            return
         with ctx.sut("C17.contour"):
             if isinstance(i, list):
                 got = self.lcl[slice(*i)]
-                exp = [get_contour(self.masks[j]) for j in range(*slice(*i).indices(len(self.masks)))]
             else:
                 got = [self.lcl[i]]
-                exp = [get_contour(self.masks[i])]
                 if i in self.lcl_seen and i not in list(self.lcl.indices)[:-1]:
                     ctx.probe("contour_evicted_recomputed")
                 self.lcl_seen.append(i)
@@ -405,14 +426,20 @@ class World:
             j = int(rs.integers(0, min(len(data), 60)))
             data[j] = (data[j] + 1 + int(rs.integers(0, 200))) % 256
             ctx.probe("file_modified_same_size")
-        elif op["how"] == "grow":
+        elif op["how"].startswith("grow"):
             data += rs.integers(0, 256, size=int(rs.integers(1, 50)), dtype=np.uint8).tobytes()
             ctx.probe("file_modified_other_size")
         elif len(data) > 2:
             del data[-int(rs.integers(1, min(len(data) - 1, 30) + 1)):]
             ctx.probe("file_modified_other_size")
+        old_ns = os.stat(p).st_mtime_ns
         p.write_bytes(bytes(data))
-        self.stamp(p)
+        if op["how"].endswith("_keep_mtime"):
+            # replaced by a version of another size that carries the old time stamp (cp -p, rsync -t, archive extraction)
+            os.utime(p, ns=(old_ns, old_ns))
+            ctx.probe("file_replaced_keeping_mtime")
+        else:
+            self.stamp(p)
         ctx.fault("file_modified")
         ctx.log("env", f"modify h{op['f'] % 3} {op['how']}")
 
